@@ -1,6 +1,17 @@
 #!/bin/sh
-# Builds the extracted model and the OCaml driver (offline). Usage: ocaml/build.sh
+# Builds the extracted models and OCaml drivers (offline).
+# Usage: ocaml/build.sh [group ...]   (default: every directory with an Extract.v)
 set -e
 cd "$(dirname "$0")"
-coqc -q -Q ../coq Mdns Extract.v >/dev/null
-ocamlfind ocamlopt -w -a -package str model.mli model.ml driver.ml -o model_driver
+groups="$*"
+if [ -z "$groups" ]; then
+  groups=$(for f in */Extract.v; do dirname "$f"; done)
+fi
+for g in $groups; do
+  (
+    cd "$g"
+    coqc -q -Q ../../coq Mdns Extract.v >/dev/null
+    cp ../drvlib.ml drvlib.ml
+    ocamlfind ocamlopt -w -a -package str model.mli model.ml drvlib.ml driver.ml -o model_driver
+  )
+done
